@@ -115,6 +115,8 @@ def announce_route(
             # Register flush callbacks for connected peers (if sync mode)
             flush_events = register_flush_callbacks(peers, reactor, sync_mode)
 
+            # one line can carry several routes ("route A ... ; route B ..."): all of them are
+            # checked before any is installed, a command answered with error changes no RIB
             for route in routes:
                 # Validate route before announcing (early feedback)
                 error = validate_announce(route)
@@ -124,6 +126,7 @@ def announce_route(
                     await reactor.processes.answer_error(service, error)
                     return
 
+            for route in routes:
                 reactor.configuration.announce_route(peers, route)
                 peer_list = ', '.join(peers) if peers else 'all peers'
                 self.log_message(f'route added to {peer_list} : {route.extensive()}')
